@@ -2,7 +2,10 @@
 
 package kern
 
+//go:norace
 func raceOff() {}
-func raceOn()  {}
+
+//go:norace
+func raceOn() {}
 
 const RaceBuild = false
